@@ -240,6 +240,25 @@ func compareModel(prop string, h, m *HistoryJ) []Finding {
 				}
 			}
 		}
+		if !resEq && a.Res == "failed" {
+			// the checkpoint machinery itself failed: its own signature, with the modes of the calls involved
+			switch fc := failClass(a); {
+			case strings.HasPrefix(fc, "cpConvert:"):
+				out = append(out, Finding{Sig: fmt.Sprintf("%s:checkpoint-convert-failed:%s-mode-call", prop, modeOf(a.Paradigm)),
+					What:  fmt.Sprintf("call %d (%s): the run could not assemble its checkpoint (conversion of the pending inputs / channel contents) and failed instead of reporting the interrupt; nothing was stored", i, a.Paradigm),
+					Model: b, Impl: a})
+				return out
+			case strings.HasPrefix(fc, "cpRestore:"):
+				prev := "value"
+				if i > 0 {
+					prev = modeOf(h.Calls[i-1].Paradigm)
+				}
+				out = append(out, Finding{Sig: fmt.Sprintf("%s:checkpoint-restore-failed:%s->%s", prop, prev, modeOf(a.Paradigm)),
+					What:  fmt.Sprintf("call %d (%s): the checkpoint written by the previous call (%s mode) could not be restored; the run cannot be resumed in this paradigm", i, a.Paradigm, prev),
+					Model: b, Impl: a})
+				return out
+			}
+		}
 		if !resEq {
 			out = append(out, Finding{Sig: fmt.Sprintf("%s:call-result:%s-vs-model-%s", prop, a.Res, b.Res),
 				What: fmt.Sprintf("call %d: outcome differs from the model (interrupted / done / failed and the result)", i), Model: b, Impl: a})
@@ -462,6 +481,16 @@ func candidates(c *Case) []*Case {
 				at(cc).Nodes[k].Body.Rerun = 0
 				out = append(out, cc)
 			}
+			if n.InKey != "" {
+				cc := cloneCase(c)
+				at(cc).Nodes[k].InKey = ""
+				out = append(out, cc)
+			}
+			if n.OutKey != "" {
+				cc := cloneCase(c)
+				at(cc).Nodes[k].OutKey = ""
+				out = append(out, cc)
+			}
 			if n.Body.Op == "graph" {
 				cc := cloneCase(c)
 				at(cc).Nodes[k].Body = Body{Op: "tag"}
@@ -559,6 +588,19 @@ func candidates(c *Case) []*Case {
 		cc := cloneCase(c)
 		cc.Paradigms = nil
 		out = append(out, cc)
+		if len(c.Paradigms) > 2 {
+			cc := cloneCase(c)
+			cc.Paradigms = cc.Paradigms[:len(cc.Paradigms)-1]
+			out = append(out, cc)
+		}
+		for i, p := range c.Paradigms {
+			// collect / transform -> the simpler call of the same mode
+			if p == "collect" || p == "transform" {
+				cc := cloneCase(c)
+				cc.Paradigms[i] = "stream"
+				out = append(out, cc)
+			}
+		}
 	}
 	return out
 }
@@ -586,6 +628,78 @@ func shrink(ctx *vh.Ctx, prop string, c *Case, sig string, budget int) (*Case, *
 		}
 	}
 	return c, best
+}
+
+// stream-mode paradigms run the graph on streams (Collect / Transform also take the input as a stream)
+func modeOf(paradigm string) string {
+	if paradigm == "" || paradigm == "invoke" {
+		return "value"
+	}
+	return "stream"
+}
+
+// HistoryFeatures: what the resumes of a history exercised (each key once per history):
+//   - resume:<paradigm of the interrupted call>-><paradigm of the resuming call>
+//   - pending-input-keyed-task:<why it is pending>:<mode of the interrupted call>-><mode of the resuming call>
+//     for every input-keyed node among the tasks a resuming call restores (first step of the
+//     (sub)graph run that resumes): why = before (listed as an interrupt-before hit) | rerun (it asked
+//     for the rerun) | carried (pending alongside: after an interrupt-after predecessor, or scheduled
+//     in the same step as a hit)
+//   - pending-output-keyed-producer: a restored task whose pending input was produced by an
+//     output-keyed node
+func HistoryFeatures(c *Case, h *HistoryJ) []string {
+	seen := map[string]bool{}
+	var out []string
+	add := func(k string) {
+		if !seen[k] {
+			seen[k] = true
+			out = append(out, k)
+		}
+	}
+	for i := 0; i+1 < len(h.Calls); i++ {
+		a, b := &h.Calls[i], &h.Calls[i+1]
+		if a.Res != "interrupted" {
+			continue
+		}
+		pa, pb := a.Paradigm, b.Paradigm
+		if pa == "" {
+			pa = "invoke"
+		}
+		if pb == "" {
+			pb = "invoke"
+		}
+		add("resume:" + pa + "->" + pb)
+		for p, steps := range b.Steps {
+			info := infoAt(a.Info, p)
+			g := GraphAtPath(c.G, p)
+			if info == nil || g == nil || len(steps) == 0 {
+				continue
+			}
+			for _, k := range steps[0] {
+				n := nodeOf(g, k)
+				if n == nil {
+					continue
+				}
+				if n.InKey != "" {
+					why := "carried"
+					if contains(info.Before, k) {
+						why = "before"
+					} else if contains(info.Rerun, k) {
+						why = "rerun"
+					}
+					add("pending-input-keyed-task:" + why + ":" + modeOf(pa) + "->" + modeOf(pb))
+					add("pending-input-keyed-task")
+				}
+				for _, pr := range predsOf(g, k) {
+					if pn := nodeOf(g, pr); pn != nil && pn.OutKey != "" && !contains(info.Rerun, k) {
+						add("pending-task-fed-by-output-keyed-node:" + modeOf(pa) + "->" + modeOf(pb))
+					}
+				}
+			}
+		}
+	}
+	sort.Strings(out)
+	return out
 }
 
 var shrunkSigs = map[string]bool{} // one shrink per signature and run
@@ -631,10 +745,23 @@ func Evaluate(ctx *vh.Ctx, prop string, c *Case, doShrink bool) error {
 		ctx.Res.Dist("before-on-start-successor")
 	}
 	if len(c.Paradigms) > 0 {
-		ctx.Res.Dist("paradigms=" + strings.Join(c.Paradigms, ","))
+		if len(c.Paradigms) <= 2 {
+			ctx.Res.Dist("paradigms=" + strings.Join(c.Paradigms, ","))
+		} else {
+			ctx.Res.Dist(fmt.Sprintf("paradigms=random-sequence-of-%d", len(c.Paradigms)))
+		}
 	}
 	if o.StreamDropped {
 		ctx.Res.Dist("paradigm-dropped-to-invoke(value-mode merge error in the model)")
+	}
+	if f.InKeyed > 0 {
+		ctx.Res.Dist("input-keyed-nodes")
+	}
+	if f.OutKeyed > 0 {
+		ctx.Res.Dist("output-keyed-nodes")
+	}
+	if f.MissingKey > 0 {
+		ctx.Res.Dist("input-key-missing-by-construction")
 	}
 	if c.NoID {
 		ctx.Res.Dist("no-checkpoint-id")
@@ -673,8 +800,14 @@ func Evaluate(ctx *vh.Ctx, prop string, c *Case, doShrink bool) error {
 			fin := last.Res
 			if last.Res == "failed" {
 				fin += ":" + strings.SplitN(failClass(&last), ":", 2)[0]
+				if e := last.Result.Err; e != nil && e.ID != nil && *e.ID == MissingKeyID {
+					fin = "failed:missing-input-key"
+				}
 			}
 			ctx.Res.Dist("final=" + fin)
+		}
+		for _, k := range HistoryFeatures(c, o.Impl) {
+			ctx.Res.Dist(k)
 		}
 		if subInts > 0 {
 			ctx.Res.Dist("history-with-nested-interrupt")
